@@ -140,10 +140,19 @@ def _run_reg(case):
         c = conditional.ConditionalGaussianPDF(M=J(M), b=J(b), Sigma=J(S))
         f = c.set_y(J(y)).product()
         u = prior.multiply(f, update_full=True)
-        return u.get_density(), u.log_integral()[0]
+        # the same product taken component-wise (one prior component, one factor component), with and without the covariance
+        uh = prior.hadamard(f, update_full=True)
+        uh0 = prior.hadamard(f, update_full=False)
+        return u.get_density(), u.log_integral()[0], uh.get_density(), uh.log_integral()[0], uh0.log_integral()[0]
     ok, res = lib(fails, "factor_route", factor_route)
     if ok:
-        p, e3 = res
+        p, e3, ph, eh, eh0 = res
+        check(fails, "factor_route[hadamard]:mu", np.asarray(ph.mu)[0], mup, s_mu)
+        check(fails, "factor_route[hadamard]:Sigma", np.asarray(ph.Sigma)[0], Sp, s_S)
+        # evidence of the hadamard routes against the multiply route (library vs library: the listed set_y constant cancels)
+        if ev is not None:  # (not in the sharp regime: log-integrals legitimately lose eps * |y' Lambda y| there)
+            check(fails, "factor_route[hadamard,update_full]:evidence_vs_multiply", float(eh), float(e3), evs * amp)
+            check(fails, "factor_route[hadamard]:evidence_vs_multiply", float(eh0), float(e3), evs * amp)
         check(fails, "factor_route:mu", np.asarray(p.mu)[0], mup, s_mu)
         check(fails, "factor_route:Sigma", np.asarray(p.Sigma)[0], Sp, s_S)
         fl = []
